@@ -52,7 +52,7 @@ class Run:
         self.known = load_known(prop)
         # stale witnesses of earlier runs must not be mistaken for this run's
         import glob
-        for f in glob.glob(os.path.join(REPLAY_DIR, "%s-*.json" % prop)):
+        for f in glob.glob(os.path.join(REPLAY_DIR, "%s-%s-*.json" % (prop, tier))):
             try:
                 os.remove(f)
             except OSError:
@@ -118,7 +118,7 @@ class Run:
         replay_paths = []
         for k, rec in self.violations.items():
             h = hashlib.blake2b(k.encode(), digest_size=6).hexdigest()
-            path = os.path.join(REPLAY_DIR, "%s-%s.json" % (self.prop, h))
+            path = os.path.join(REPLAY_DIR, "%s-%s-%s.json" % (self.prop, self.tier, h))
             with open(path, "w") as f:
                 json.dump({"property": self.prop, "tier": self.tier, "seed": self.seed,
                            "signature": rec["sig"], "count": rec["count"], "what": rec["what"],
@@ -154,6 +154,14 @@ class Run:
             ev["notes"] = self.notes
         with open(os.path.join(EVIDENCE_DIR, "%s.json" % self.prop), "w") as f:
             json.dump(ev, f, indent=1, ensure_ascii=False, default=str)
+        try:        # run log (git-ignored): one line per run, used to quote measured sizes in DESIGN.md
+            os.makedirs(os.path.join(VERIF, "logs"), exist_ok=True)
+            with open(os.path.join(VERIF, "logs", "runs.jsonl"), "a") as f:
+                f.write(json.dumps({"t": int(time.time()), "property": self.prop, "tier": self.tier, "seed": int(self.seed),
+                                    "evaluations": int(self.evaluations), "distinct": int(nd), "violations": len(self.violations),
+                                    "inconclusive": coverage["inconclusive_total"], "wall_s": round(wall, 1)}) + "\n")
+        except OSError:
+            pass
         for r in self.known_hits.values():
             print("KNOWN-FINDING: property=%s %s (seen %d times this run)" %
                   (self.prop, r["what"], r["count"]))
